@@ -16,6 +16,8 @@ Rust [`std::fs`] library which already abstracts POSIX and Windows file system o
 
 mod traits;
 pub use self::traits::{FileLock, FileSystem, RandomAccessFile, ReadonlyRandomAccessFile};
+#[cfg(feature = "verif")]
+pub use self::traits::UnlockableFile;
 
 mod fs_disk;
 pub use self::fs_disk::{OsFileSystem, TmpFileSystem};
